@@ -29,7 +29,7 @@ ASSUMPTIONS = [
 ]
 BOUNDS = {'quick': dict(dim='1..2', NP=4, strategies=['Best1Bin', 'Rand1Exp'], steps='1 (DE, NM from arbitrary state); 0..2 from arbitrary x0 (NM start, Powell)'),
           'thorough': dict(dim='1..3', NP='4..6', strategies='all ten', steps='1 (DE, NM from arbitrary state); 0..2 from arbitrary x0 (NM start, Powell)')}
-BUDGET = {'quick': 600, 'thorough': 5400}
+BUDGET = {'quick': 1800, 'thorough': 5400}
 
 
 def nm_objective(w, E, v):
